@@ -19,8 +19,8 @@ CLAIMED = {
 
 CLAIMED.update({
  "C08": dict(
-   technique="deterministic simulation: seeded operation histories with lifecycle events (clone, freeze/thaw, collect, persist+restart through a simulated disk with retryable faults), reference model Vec<bool> checked after every step",
-   text="Seeded exploration of operation histories on BitVectorMut against a Vec<bool> model, with restart through the simulated disk as one more generated operation; release-like and debug-assertion builds.",
+   technique="deterministic simulation: seeded operation histories with lifecycle events (clone, clone_from, freeze/thaw, collect, persist+restart through a simulated disk with retryable faults) and fault injection at the caller-supplied source iterators of extend/collect (unhelpful size hints, early end, panic after j values), reference model Vec<bool> checked after every step",
+   text="Seeded exploration of operation histories on BitVectorMut against a Vec<bool> model, with restart through the simulated disk and failing source iterators as generated operations; after a failed extend the vector must hold its old content plus the effect of some prefix of the yielded values; release-like and debug-assertion builds.",
    note="Trusted: the Vec<bool> model and the observation code; arguments are kept inside the documented preconditions.",
    ref="DESIGN.md §3 C08"),
  "C09": dict(
@@ -34,19 +34,19 @@ CLAIMED.update({
    note="Trusted: the simulated disk; equality is the type's own PartialEq; queries that fault on the original for reasons owned by C01/C04 are not generated (listed in spec.rs).",
    ref="DESIGN.md §3 C11"),
  "C12": dict(
-   technique="deterministic simulation: seeded call histories over {next, next_back, len} including calls after exhaustion, reference model VecDeque checked after every call",
+   technique="deterministic simulation: seeded call histories over {next, next_back, len, size_hint, nth, nth_back} ended by fold/rfold/count/last/min/max, including calls after exhaustion, on containers in four incarnations (built, reloaded, clone, clone_from), reference model VecDeque checked after every call",
    text="Seeded exploration of call histories on every iterator the library hands out, against a VecDeque model, including behaviour after exhaustion.",
-   note="Trusted: the VecDeque model; for trees the element sequence is the tree's own get() (get versus the input sequence is C02/C03).",
+   note="Trusted: the VecDeque model; the element sequence is the input sequence, as the statement says.",
    ref="DESIGN.md §3 C12"),
  "C13": dict(
-   technique="deterministic simulation: seeded push/extend/clone histories on the builder with mid-history snapshots, reference model Vec<u8>",
-   text="Seeded exploration of builder histories over all 12 integer types and arbitrary bit patterns against a Vec<u8> model of the two low bits.",
+   technique="deterministic simulation: seeded push/extend/clone/clone_from histories on the builder with mid-history snapshots and fault injection at the source iterators of extend/collect (unhelpful size hints, early end, panic after j values), reference model Vec<u8>",
+   text="Seeded exploration of builder histories over all 12 integer types and arbitrary bit patterns against a Vec<u8> model of the two low bits; every built vector is observed through len/get/iteration (borrowing, consuming, skipping, internal) and clone equality.",
    note="Trusted: the Vec<u8> model.",
    ref="DESIGN.md §3 C13"),
  "C18": dict(
    technique="deterministic simulation of thread schedules: shuttle (seeded random and PCT schedulers, replayable schedules) over a shared reference with yield points between and inside queries; sequential purity histories; Send+Sync at compile time",
-   text="Seeded search over thread schedules: 2-4 simulated threads query one shared structure, every answer is compared with the single-thread answer and the serialized form is compared before/after; plus sequential purity and a compile-time Send+Sync assertion for every public structure. Today the structures have no interior mutability, so the check passes trivially; its value is against changes.",
-   note="Trusted: shuttle's scheduler; context switches happen only at the H4 yield points and between queries (the Miri engine of the thorough tier pre-empts anywhere and detects data races).",
+   text="Seeded search over thread schedules: 2-4 simulated threads query one shared structure, every answer is compared with the single-thread answer and the serialized form is compared before/after; plus sequential purity histories (also over two values and over values that were reloaded, cloned or overwritten by clone_from), purity-only scenarios on larger structures, Miri executions with real threads (quick and thorough tier), and a compile-time Send+Sync assertion for every public type. Today the structures have no interior mutability, so the check passes trivially; its value is against changes.",
+   note="Trusted: shuttle's scheduler; context switches happen only at the H4 yield points and between queries (the Miri engine, run in both tiers, pre-empts anywhere and detects data races).",
    ref="DESIGN.md §3 C18"),
 })
 
